@@ -651,12 +651,17 @@ def select__index_of(self: XPathFunction, context: ta.ContextType = None) -> Ite
         collation = self.get_argument(context, 2, required=True, cls=str)
 
     items = [x for x in self[0].atomization(context)]
+    def equal(item: AtomicType) -> bool:
+        if isinstance(item, bool) is not isinstance(value, bool):
+            return False  # xs:boolean vs xs:boolean only
+        elif isinstance(item, Decimal) and isinstance(value, float):
+            return float(item) == value  # 'eq' promotes the xs:decimal operand
+        elif isinstance(item, float) and isinstance(value, Decimal):
+            return item == float(value)
+        return manager.eq(item, value)
+
     with CollationManager(collation, self) as manager:
-        positions = [
-            pos for pos, result in enumerate(items, start=1)
-            if isinstance(result, bool) is isinstance(value, bool)  # xs:boolean vs xs:boolean only
-            and manager.eq(result, value)
-        ]
+        positions = [pos for pos, result in enumerate(items, start=1) if equal(result)]
     yield from positions
 
 
